@@ -224,7 +224,9 @@ class Taint:
                     rv = d[3]
                     if rv["k"] in ("ref", "rawptr"):
                         pl = rv["pl"]
-                        if pl["p"] and pl["p"][0]["k"] == "deref":
+                        if any(p["k"] == "deref" for p in pl["p"]):
+                            # the storage lies behind a pointer held in (a field of) that local - `&mut (*(_t.0)).x` points
+                            # where `_t.0` points, not into the tuple `_t`
                             out |= self.ref_bases(body, pl["l"], depth + 1)
                         else:
                             out.add(pl["l"])
@@ -236,7 +238,11 @@ class Taint:
                                 out |= self.ref_bases(body, pl["l"], depth + 1)
                             else:
                                 out |= self.ref_bases(body, pl["l"], depth + 1)
-                                out.add(pl["l"])
+                                # a reference copied out of `(*p).field` may point into what p points to; one copied out of
+                                # a by-value tuple / struct local (`_t.0`) points where the reference stored there points
+                                if pl["p"][0]["k"] == "deref" or not any(
+                                        d2[2] == "assign" and d2[3]["k"] == "agg" for d2 in body.defs.get(pl["l"], ())):
+                                    out.add(pl["l"])
                     elif rv["k"] == "agg":
                         for o in rv["ops"]:
                             if o["k"] in ("copy", "move"):
